@@ -75,13 +75,13 @@ Qed.
 (* ---------- what read_chunks delivers ---------- *)
 Definition chunk_part (v : variant) (ci : cindex) (t1 t2 : Z) (kc : chk_info * (Z * list Z)) : list ev :=
   let '(k, (cid, data)) := kc in
-  let st := fst (update_poss v ci t1 t2 (k_id k) (k_min k) (k_max k) (Z.of_nat (length data))) in
+  let st := fst (update_poss v ci t1 t2 (k_id k) (k_rmin k) (k_rmax k) (Z.of_nat (length data))) in
   tag_chunk cid (filter (fun pt => fit_in_range t1 t2 (snd pt)) (jit_chunk st data)).
 
 Lemma chunk_part_unfold v ci t1 t2 k cid data :
   chunk_part v ci t1 t2 (k, (cid, data)) =
   tag_chunk cid (filter (fun pt => fit_in_range t1 t2 (snd pt))
-                        (jit_chunk (fst (update_poss v ci t1 t2 (k_id k) (k_min k) (k_max k) (Z.of_nat (length data)))) data)).
+                        (jit_chunk (fst (update_poss v ci t1 t2 (k_id k) (k_rmin k) (k_rmax k) (Z.of_nat (length data)))) data)).
 Proof. reflexivity. Qed.
 
 Lemma read_chunks_events v ci t1 t2 : forall infos cks q,
@@ -90,7 +90,7 @@ Proof.
   induction infos as [|k itl IH]; intros cks q; [reflexivity|].
   destruct cks as [|[cid data] ctl]; [reflexivity|].
   cbn [combine flat_map]. rewrite chunk_part_unfold. cbn [read_chunks].
-  destruct (update_poss v ci t1 t2 (k_id k) (k_min k) (k_max k) (Z.of_nat (length data))) as [st rb].
+  destruct (update_poss v ci t1 t2 (k_id k) (k_rmin k) (k_rmax k) (Z.of_nat (length data))) as [st rb].
   specialize (IH ctl (if rb then enqueue q cid else q)).
   destruct (read_chunks v ci t1 t2 itl ctl (if rb then enqueue q cid else q)) as [evs q''].
   cbn [fst] in *. rewrite IH. reflexivity.
@@ -145,25 +145,25 @@ Qed.
 Lemma window_complete v ci t1 t2 k d :
   fix_lb v = true -> find_chunk ci (k_id k) = Some k -> chunk_inv k d -> len d <= max_uint32 ->
   forall i, 0 <= i < len d -> t1 <= dnth d i <= t2 ->
-  let st := fst (update_poss v ci t1 t2 (k_id k) (k_min k) (k_max k) (len d)) in
+  let st := fst (update_poss v ci t1 t2 (k_id k) (k_rmin k) (k_rmax k) (len d)) in
   snd (check_pos_or_advance st 0) = true /\ fst (check_pos_or_advance st 0) <= i <= s_max st.
 Proof.
   intros Hv Hf Hinv Hlen i Hi Ht. pose proof Hinv as [Hh _]. specialize (Hh i Hi).
   unfold update_poss. rewrite Hv.
-  destruct (t2 <? k_min k) eqn:E1; [apply Z.ltb_lt in E1; lia|].
-  destruct (k_max k <? t1) eqn:E2; [apply Z.ltb_lt in E2; lia|]. cbn [orb].
-  set (lo_rb := if k_min k <=? t1 then
+  destruct (t2 <? k_rmin k) eqn:E1; [apply Z.ltb_lt in E1; lia|].
+  destruct (k_rmax k <? t1) eqn:E2; [apply Z.ltb_lt in E2; lia|]. cbn [orb].
+  set (lo_rb := if k_rmin k <=? t1 then
                   match (if t1 =? min_int64 then PPos 0 else pos_ge ci (k_id k) (t1 - 1)) with PPos p => (p, false) | _ => (0, true) end
                 else (0, false)).
-  set (hi_rb := if t2 <=? k_max k then match pos_lt ci (k_id k) t2 with PPos p => (p, false) | _ => (max_uint32, true) end
+  set (hi_rb := if t2 <=? k_rmax k then match pos_lt ci (k_id k) t2 with PPos p => (p, false) | _ => (max_uint32, true) end
                 else (max_uint32, false)).
   assert (Hlo : fst lo_rb <= i).
-  { unfold lo_rb. destruct (k_min k <=? t1); [|cbn; lia].
+  { unfold lo_rb. destruct (k_rmin k <=? t1); [|cbn; lia].
     destruct (t1 =? min_int64); [cbn; lia|].
     destruct (pos_ge ci (k_id k) (t1 - 1)) as [p| | |] eqn:Eg; try (cbn; lia).
     cbn. apply (pos_ge_complete ci (k_id k) k d (t1 - 1) p Hf Hinv Eg i Hi). lia. }
   assert (Hhi : i <= fst hi_rb).
-  { unfold hi_rb. destruct (t2 <=? k_max k); [|cbn; lia].
+  { unfold hi_rb. destruct (t2 <=? k_rmax k); [|cbn; lia].
     destruct (pos_lt ci (k_id k) t2) as [p| | |] eqn:El; try (cbn; lia).
     cbn. apply (pos_lt_complete ci (k_id k) k d t2 p Hf Hinv Hlen El i Hi). lia. }
   destruct lo_rb as [lo rb1]. destruct hi_rb as [hi rb2]. cbn [fst snd] in *.
@@ -181,25 +181,25 @@ Qed.
 Lemma window_complete_strict v ci t1 t2 k d :
   fix_lb v = false -> find_chunk ci (k_id k) = Some k -> chunk_inv_strict k d -> len d <= max_uint32 ->
   forall i, 0 <= i < len d -> t1 <= dnth d i <= t2 ->
-  let st := fst (update_poss v ci t1 t2 (k_id k) (k_min k) (k_max k) (len d)) in
+  let st := fst (update_poss v ci t1 t2 (k_id k) (k_rmin k) (k_rmax k) (len d)) in
   snd (check_pos_or_advance st 0) = true /\ fst (check_pos_or_advance st 0) <= i <= s_max st.
 Proof.
   intros Hv Hf Hinvs Hlen i Hi Ht. pose proof (chunk_inv_strict_weaken _ _ Hinvs) as Hinv.
   pose proof Hinv as [Hh _]. specialize (Hh i Hi).
   unfold update_poss. rewrite Hv.
-  destruct (t2 <? k_min k) eqn:E1; [apply Z.ltb_lt in E1; lia|].
-  destruct (k_max k <? t1) eqn:E2; [apply Z.ltb_lt in E2; lia|]. cbn [orb].
-  set (lo_rb := if k_min k <=? t1 then
+  destruct (t2 <? k_rmin k) eqn:E1; [apply Z.ltb_lt in E1; lia|].
+  destruct (k_rmax k <? t1) eqn:E2; [apply Z.ltb_lt in E2; lia|]. cbn [orb].
+  set (lo_rb := if k_rmin k <=? t1 then
                   match pos_ge ci (k_id k) t1 with PPos p => (p, false) | _ => (0, true) end
                 else (0, false)).
-  set (hi_rb := if t2 <=? k_max k then match pos_lt ci (k_id k) t2 with PPos p => (p, false) | _ => (max_uint32, true) end
+  set (hi_rb := if t2 <=? k_rmax k then match pos_lt ci (k_id k) t2 with PPos p => (p, false) | _ => (max_uint32, true) end
                 else (max_uint32, false)).
   assert (Hlo : fst lo_rb <= i).
-  { unfold lo_rb. destruct (k_min k <=? t1); [|cbn; lia].
+  { unfold lo_rb. destruct (k_rmin k <=? t1); [|cbn; lia].
     destruct (pos_ge ci (k_id k) t1) as [p| | |] eqn:Eg; try (cbn; lia).
     cbn. apply (pos_ge_complete_strict ci (k_id k) k d t1 p Hf Hinvs Eg i Hi). lia. }
   assert (Hhi : i <= fst hi_rb).
-  { unfold hi_rb. destruct (t2 <=? k_max k); [|cbn; lia].
+  { unfold hi_rb. destruct (t2 <=? k_rmax k); [|cbn; lia].
     destruct (pos_lt ci (k_id k) t2) as [p| | |] eqn:El; try (cbn; lia).
     cbn. apply (pos_lt_complete ci (k_id k) k d t2 p Hf Hinv Hlen El i Hi). lia. }
   destruct lo_rb as [lo rb1]. destruct hi_rb as [hi rb2]. cbn [fst snd] in *.
@@ -216,12 +216,12 @@ Qed.
 (* a chunk whose window is complete delivers exactly its in-range events *)
 Lemma chunk_part_complete v ci t1 t2 k cid d :
   (forall i, 0 <= i < len d -> t1 <= dnth d i <= t2 ->
-     let st := fst (update_poss v ci t1 t2 (k_id k) (k_min k) (k_max k) (len d)) in
+     let st := fst (update_poss v ci t1 t2 (k_id k) (k_rmin k) (k_rmax k) (len d)) in
      snd (check_pos_or_advance st 0) = true /\ fst (check_pos_or_advance st 0) <= i <= s_max st) ->
   chunk_part v ci t1 t2 (k, (cid, d)) = all_part (fun e => fit_in_range t1 t2 (snd e)) (cid, d).
 Proof.
   intros Hw. unfold chunk_part, all_part. cbn [fst snd]. fold (len d).
-  set (st := fst (update_poss v ci t1 t2 (k_id k) (k_min k) (k_max k) (len d))) in *.
+  set (st := fst (update_poss v ci t1 t2 (k_id k) (k_rmin k) (k_rmax k) (len d))) in *.
   rewrite <- (tag_filter cid (fit_in_range t1 t2)). f_equal.
   unfold jit_chunk. destruct (check_pos_or_advance st 0) as [np ok] eqn:Ec.
   destruct ok.
